@@ -57,6 +57,10 @@ def _scenario(bits, acl_pos, d_up, bw, perm):
         s1["services"][1] = {"type": "web-server", "options": {"listen_on_ports": [9999, "SMB"]}}
     if bits["fix"]:
         c1["services"][0] = {"type": "dns-client", "options": {"fixing_duration": 5}}
+    if bits.get("dnsopt"):
+        # the dns-client is declared with its own server, different from the host's node-level dns_server
+        assert c1["services"][0]["type"] == "dns-client" and c1.get("dns_server")
+        c1["services"][0] = dict(c1["services"][0], options=dict(c1["services"][0].get("options", {}), dns_server="192.168.2.77"))
     if bits["defaults"]:
         cfg["simulation"]["defaults"] = {"node_start_up_duration": 2, "node_shut_down_duration": 4, "node_scan_duration": 6, "service_fix_duration": 7, "folder_scan_duration": 2, "folder_restore_duration": 3}
     if bits["off"]:
@@ -111,9 +115,11 @@ def _inventory_from_dict(cfg):
                 ent["fixing_duration"] = dflt["service_fix_duration"]
             if "listen_on_ports" in o:
                 ent["listen"] = sorted(p if isinstance(p, int) else PORT_LOOKUP[p] for p in o["listen_on_ports"])
-            for k in ("target_url", "db_server_ip", "server_password", "ntp_server_ip", "db_password", "server_ip", "payload"):
+            for k in ("target_url", "db_server_ip", "server_password", "ntp_server_ip", "db_password", "server_ip", "payload", "dns_server"):
                 if k in o:
                     ent[k] = str(o[k])
+            if s["type"] == "dns-client" and "dns_server" not in o and n.get("dns_server"):
+                ent["dns_server"] = str(n["dns_server"])  # documented: the client uses the host's DNS server unless it is given one
             if "domain_mapping" in o:
                 ent["domain_mapping"] = {k: str(v) for k, v in o["domain_mapping"].items()}
             sw[s["type"]] = ent
@@ -170,7 +176,7 @@ def _check_inventory(game, inv):
                 check(s.config.fixing_duration == ent["fixing_duration"], lambda: f"{name}/{sw_name}: fixing_duration {s.config.fixing_duration}, scenario says {ent['fixing_duration']}")
             if "listen" in ent:
                 check(sorted(s.listen_on_ports) == ent["listen"], lambda: f"{name}/{sw_name}: listen_on_ports {sorted(s.listen_on_ports)}, scenario says {ent['listen']}")
-            for k in ("target_url", "db_server_ip", "server_password", "ntp_server_ip", "db_password", "server_ip", "payload"):
+            for k in ("target_url", "db_server_ip", "server_password", "ntp_server_ip", "db_password", "server_ip", "payload", "dns_server"):
                 if k in ent:
                     got = getattr(s.config, k, None)
                     check(got is not None and str(got) == ent[k], lambda: f"{name}/{sw_name}: option {k}={got!r}, scenario says {ent[k]!r}")
@@ -215,17 +221,17 @@ def _check_inventory(game, inv):
         check(len(a.action_manager.action_map) == nact or nact == 0, f"agent {ref}: action map size differs")
 
 
-BITS = ["users", "files", "route", "droute", "acl", "listen", "fix", "defaults", "off", "durations", "redeclare"]
+BITS = ["users", "files", "route", "droute", "acl", "listen", "fix", "defaults", "off", "durations", "redeclare", "dnsopt"]
 
 
 def config_inventory(
     b_users: bool, b_files: bool, b_route: bool, b_droute: bool, b_acl: bool, b_listen: bool, b_fix: bool, b_defaults: bool,
-    b_off: bool, b_durations: bool, b_redeclare: bool, acl_pos: int, d_up: int, bw_i: int, perm: bool,
+    b_off: bool, b_durations: bool, b_redeclare: bool, acl_pos: int, d_up: int, bw_i: int, perm: bool, b_dnsopt: bool,
 ):
     from primaite.game.game import PrimaiteGame
 
     assume(all_of(rng(acl_pos, 0, 2), rng(d_up, 0, 2), rng(bw_i, 0, 1)))
-    bits = dict(zip(BITS, [b_users, b_files, b_route, b_droute, b_acl, b_listen, b_fix, b_defaults, b_off, b_durations, b_redeclare]))
+    bits = dict(zip(BITS, [b_users, b_files, b_route, b_droute, b_acl, b_listen, b_fix, b_defaults, b_off, b_durations, b_redeclare, b_dnsopt]))
     bits = {k: bool(v) for k, v in bits.items()}
     pos = pick([0, 11, 23], acl_pos) if bits["acl"] else 0
     dup = pick_int(d_up, 0, 2) if bits["durations"] else 0
@@ -357,10 +363,10 @@ def _check_inventory_shipped(game, inv, f):
 HARNESSES = {
     "config_inventory": {
         "fn": config_inventory,
-        "quick": [{"fixed": {"b_users": u, "b_files": u, "b_off": o, "b_route": o, "perm": p, "bw_i": 1 if p else 0}, "timeout": 280} for u in (False, True) for o in (False, True) for p in (False, True)],
-        "thorough": [{"fixed": {"b_users": u, "b_files": f, "b_off": o, "perm": p}, "timeout": 1500} for u in (False, True) for f in (False, True) for o in (False, True) for p in (False, True)],
+        "quick": [{"fixed": {"b_users": u, "b_files": u, "b_dnsopt": u, "b_off": o, "b_route": o, "perm": p, "bw_i": 1 if p else 0}, "timeout": 280} for u in (False, True) for o in (False, True) for p in (False, True)],
+        "thorough": [{"fixed": {"b_users": u, "b_files": f, "b_dnsopt": f, "b_off": o, "perm": p}, "timeout": 1500} for u in (False, True) for f in (False, True) for o in (False, True) for p in (False, True)],
         "cover": ["built", "perm"],
-        "bounds": {"quick": "11 presence bits (4 coupled pairwise per job), 3 ACL positions (0, 11, 23), 3 durations, 2 bandwidths (one fractional), key-order permutation", "thorough": "all 2^11 presence combinations"},
+        "bounds": {"quick": "12 presence bits (5 coupled per job), 3 ACL positions (0, 11, 23), 3 durations, 2 bandwidths (one fractional), key-order permutation", "thorough": "all 2^11 presence combinations of the first 11 bits, the dns-client option bit coupled to the files bit"},
     },
     "firewall_inventory": {
         "fn": firewall_inventory,
